@@ -293,6 +293,8 @@ def r142(ctx):
                 par = getattr(n, "_parent", None)
                 if isinstance(par, ast.Call) and dotted(par.func) == "os.path.join" and len(par.args) < 2:
                     continue  # not a file inside a path directory
+                if isinstance(par, ast.Call) and dotted(par.func) == "os.path.join" and any("data_dir" in ast.unparse(a_) for a_ in par.args if a_ is not n):
+                    continue  # a file of the data directory (the run's data file), not of a stored path
                 lits[q.split(".")[-1]].add(n.value)
     want = {"load_path": {names["traj"], names["order"]}, "_load_energies_for_path": {names["energy"]}, "setup_config": {names["traj"]}, "treat_output": set(names.values())}
     for q, w in want.items():
